@@ -23,14 +23,20 @@ def runBurst (self : EvId) : Burst τ σ → KState τ σ → KState τ σ × Te
   | .ret v, s => (s, .returned v)
   | .raise x, s => (s, .raised x)
 
-/-- first part of `_resume`: mark active, compute what is sent or thrown, defuse a failed event -/
-def deliver (s : KState τ σ) (p e : EvId) : KState τ σ × Resume :=
-  let s := { s with active := some p }
-  let er := s.ev e
-  match er.out with
-  | some (.ok v) => (s, if er.kind == Kind.init p then Resume.start else Resume.value v)
-  | some (.fail x) => (s.setEv e { er with defused := true }, Resume.exc x)
-  | none => (s, Resume.value Val.none)
+/-- what `_resume(event)` sends (`.value`) or throws (`.exc`) into the generator -/
+def resumeArg (s : KState τ σ) (p e : EvId) : Resume :=
+  match (s.ev e).out with
+  | some (.ok v) => if (s.ev e).kind = Kind.init p then Resume.start else Resume.value v
+  | some (.fail x) => Resume.exc x
+  | none => Resume.value Val.none
+
+/-- first part of `_resume`: the process becomes the active one; a failed event counts as handled -/
+def deliverSt (s : KState τ σ) (p e : EvId) : KState τ σ :=
+  match (s.ev e).out with
+  | some (.fail _) => KState.defuse { s with active := some p } e
+  | _ => { s with active := some p }
+
+def deliver (s : KState τ σ) (p e : EvId) : KState τ σ × Resume := (deliverSt s p e, resumeArg s p e)
 
 /-- the generator finished: the process's own event is triggered with its result, NORMAL, now -/
 def finishProc (s : KState τ σ) (p : EvId) (pr : ProcRec σ) (o : Outcome) : KState τ σ :=
@@ -66,12 +72,9 @@ def deliverInterrupt (body : σ → Resume → Burst τ σ) (fuel : Nat) (iv p :
   match s.proc? p with
   | none => s
   | some pr =>
-    let s := match pr.target with
-      | some t =>
-        let tr := s.ev t
-        s.setEv t { tr with cbs := tr.cbs.map (·.erase (.resume p)) }
-      | none => s
-    resume body p fuel iv s
+    match pr.target with
+    | some t => resume body p fuel iv (s.eraseCb t (.resume p))
+    | none => resume body p fuel iv s
 
 /-- what the callback loop of `step` carries along -/
 structure LoopSt (τ σ : Type) where
@@ -87,7 +90,12 @@ def runCb (body : σ → Resume → Burst τ σ) (fuel : Nat) (e : EvId) (l : Lo
   let s := l.s
   match cb with
   | .resume p => { l with s := resume body p fuel e s }
-  | .probe tag => { l with s := s.emit (.probe tag e ((s.ev e).out.getD (.ok .none)) s.now) }
+  | .probe tag =>
+    let o := match (s.ev e).out with
+      | some (.ok v) => Outcome.ok (freezeVal s v)     -- a ConditionValue is looked at now
+      | some o => o
+      | none => Outcome.ok .none
+    { l with s := s.emit (.probe tag e o s.now) }
   | .stop =>
     match (s.ev e).out with
     | some (.fail x) => { l with abort := some x }
